@@ -132,6 +132,63 @@ def handleEnv (op : String) : P String := do
       let ops ← pCounted pOp
       let r := Machine.run e (Machine.init d) ops
       pure (" ; ".intercalate (r.2.map showOut) ++ " | " ++ showLog r.1.d.log)
+  | "gym" => do
+      let e ← pEnv
+      let enc ← pEnc
+      let withState ← pBool
+      let d ← pDraw
+      let n ← pNat
+      let o : OuterSpec (StateRepr ⊕ ObsRepr) := {
+        stateRep := if withState then
+            some fun s => match stateConvert enc e.stateSpace e.debug s with
+              | .ok r => .ok (.inl r) | .error err => .error err
+          else none
+        obsRep := some fun ob => match obsConvert enc e.obsSpace e.debug ob with
+              | .ok r => .ok (.inr r) | .error err => .error err }
+      let showRep : (StateRepr ⊕ ObsRepr) → String
+        | .inl r => showStateRepr r ++ " | " ++ showBool ((stateSpaceOf enc e.stateSpace).containsState r)
+        | .inr r => showObsRepr r ++ " | " ++ showBool ((obsSpaceOf enc e.obsSpace).containsObs r)
+      let showG : GymOut (StateRepr ⊕ ObsRepr) → String
+        | .reset ob => showRep ob
+        | .step ob r t => showRep ob ++ " # " ++ " ".intercalate (r.map showRTerm) ++ " " ++ showBool t
+        | .stateStep st r t ob => showRep st ++ " # " ++ " ".intercalate (r.map showRTerm) ++ " " ++ showBool t ++ " # " ++ showRep ob
+        | .err err => showErr err
+      let rec go : Nat → Machine → List String → P (List String)
+        | 0, _, acc => pure acc.reverse
+        | k+1, m, acc => do
+          match (← tok) with
+          | "S" => do let l ← pCounted pNat; go k { m with d := ⟨l, m.d.log⟩ } ("ok" :: acc)
+          | "R" => let r := gymReset e o m; go k r.1 (showG r.2 :: acc)
+          | "T" => do let i ← pInt; let r := gymStep e o m i; go k r.1 (showG r.2 :: acc)
+          | "W" => do let i ← pInt; let r := gymStateStep e o m i; go k r.1 (showG r.2 :: acc)
+          | "V" => let r := gymStateReset e o m; go k r.1 (showG r.2 :: acc)
+          | _ => failure
+      let outs ← go n (Machine.init d) []
+      pure (" ; ".intercalate outs)
+  | "repr" => do
+      match (← tok) with
+      | "state" => do
+          let enc ← pEnc; let sp ← pStateSpace; let dbg ← pBool; let s ← pState
+          if !stateReprOk sp then pure "ERR ValueError" else
+          let r := stateConvert enc sp dbg s
+          pure (showExcept (fun r => showStateRepr r ++ " | " ++ showBool ((stateSpaceOf enc sp).containsState r)) r)
+      | "obs" => do
+          let enc ← pEnc; let sp ← pObsSpace; let dbg ← pBool; let o ← pState
+          let r := obsConvert enc sp dbg o
+          pure (showExcept (fun r => showObsRepr r ++ " | " ++ showBool ((obsSpaceOf enc sp).containsObs r)) r)
+      | "sobj" => do
+          let enc ← pEnc; let sp ← pStateSpace; let o ← pObj
+          pure (showExcept showInts (objConvert enc (ReprCtx.ofState sp) o))
+      | "oobj" => do
+          let enc ← pEnc; let sp ← pObsSpace; let o ← pObj
+          pure (showExcept showInts (objConvert enc (ReprCtx.ofObs sp) o))
+      | "sspace" => do
+          let enc ← pEnc; let sp ← pStateSpace
+          pure (showInts (objUpper enc (ReprCtx.ofState sp)))
+      | "ospace" => do
+          let enc ← pEnc; let sp ← pObsSpace
+          pure (showInts (objUpper enc (ReprCtx.ofObs sp)))
+      | _ => failure
   | "sscontains" => do
       let sh ← pNat; let sw ← pNat
       let kinds ← pCounted pKind; let colors ← pCounted pColor
